@@ -670,10 +670,43 @@ def marking_rules(R, tr):
                 R.violation('R9', c, tr.loc(s), 'the first era is matched from start_year %+d: the year before start_year is needed for the most recent prior transition' % v[1])
 
 
+def prior_rules_rule(R, tr):
+    """find_latest_prior_rules(rules, year) keeps, for the era that starts in `year`, the rules in effect just before it:
+    rules whose TO year lies strictly before `year`, and among them those with the latest (TO year, month).  A rule that
+    still runs in `year` is found by find_matching_rules; counting it here as "prior" displaces the real prior rule,
+    which is then deleted as unused."""
+    f = tr.fn('find_latest_prior_rules')
+    c = 'tzdb.transformer.find_latest_prior_rules'
+    ypar = f.node.args.args[1].arg if len(f.node.args.args) >= 2 else None
+    bound = {}
+    for x in ast.walk(f.node):
+        if isinstance(x, ast.Assign) and isinstance(x.targets[0], ast.Name) and isinstance(x.value, ast.Subscript):
+            bound[x.targets[0].id] = ast.unparse(x.value.slice).strip("'\"")
+    outer = inner = None
+    for x in ast.walk(f.node):
+        if isinstance(x, ast.If) and isinstance(x.test, ast.Compare) and len(x.test.ops) == 1:
+            l, r = ast.unparse(x.test.left), ast.unparse(x.test.comparators[0])
+            if bound.get(l) == 'toYear' and r == ypar:
+                outer = ('l', x.test.ops[0])
+            elif bound.get(r) == 'toYear' and l == ypar:
+                outer = ('r', x.test.ops[0])
+            elif 'candidate' in r and 'date' in l and isinstance(x.test.ops[0], (ast.Gt, ast.GtE, ast.Lt, ast.LtE)) and inner is None:
+                inner = x.test.ops[0]
+    R.instance('R9', c + ':before-year', f.loc)
+    strict = outer is not None and ((outer[0] == 'l' and isinstance(outer[1], ast.Lt)) or (outer[0] == 'r' and isinstance(outer[1], ast.Gt)))
+    if not strict:
+        R.violation('R9', c + ':before-year', f.loc, 'prior rules are not selected by "rule TO year < %s" (found: %s): a rule that ends in the era\'s first year counts as prior, '
+                    'replaces the rule really in effect before the era, and that rule is then removed as unused' % (ypar, type(outer[1]).__name__ if outer else 'no such test'))
+    R.instance('R9', c + ':latest', f.loc)
+    if not isinstance(inner, ast.Gt):
+        R.violation('R9', c + ':latest', f.loc, 'the candidate is not replaced by a strictly later (TO year, month) date')
+
+
 def run(cfg):
     R = Report('C03', cfg)
     tr = py.load(cfg, TR)
     marking_rules(R, tr)
+    prior_rules_rule(R, tr)
     accounting_rules(R, tr)
     role_rules(cfg, R, tr)
     chain_rules(R, tr)
@@ -706,6 +739,9 @@ SELFTEST = [
     dict(id='to-year-not-checked', file='tools/tzdb/transformer.py', find='if not is_year_tiny(from_year) or not is_year_tiny(to_year):', replace='if not is_year_tiny(from_year) or not is_year_tiny(from_year):', rule='R6'),
     dict(id='fstring-percent', file='tools/tzdb/transformer.py', find="""                        f"invalid AT time '{at_time}'")""", replace="""                        f"invalid AT time '{at_time}'" % at_time)""", rule='R7'),
     dict(id='format-arity', file='tools/tzdb/transformer.py', find="""                    "Found %d transitions in year/month '%04d-%02d'" % removal)""", replace="""                    "Found %d transitions in year/month '%04d-%02d'" % (removal[0], removal[1]))""", rule='R7'),
+    dict(id='prior-rules-include-the-era-year', file='tools/tzdb/transformer.py', unique=False, nth=0, find='        if rule_year < year:\n            rule_date = (rule_year, rule_month)\n            if rule_date > candidate_date:',
+         replace='        if rule_year <= year:\n            rule_date = (rule_year, rule_month)\n            if rule_date > candidate_date:', rule='R9', construct='before-year'),
+    dict(id='prior-rules-keep-earliest', file='tools/tzdb/transformer.py', find='            if rule_date > candidate_date:', replace='            if rule_date >= candidate_date:', rule='R9', construct='latest'),
     dict(id='marking-stops-before-until-year', file='tools/tzdb/transformer.py',
          find='                matching_rules = find_matching_rules(rules, begin_year,\n                                                     until_year + 1)',
          replace='                matching_rules = find_matching_rules(rules, begin_year,\n                                                     until_year)', rule='R9', construct=':until'),
